@@ -170,6 +170,8 @@ func (b *Backend) AddBackendPath(link *PathLink) *BackendPath {
 	}
 	b.Paths = append(b.Paths, backendPath)
 	sortPaths(b.Paths, false)
+	// the per path config, if already built, doesn't know the new path
+	b.pathConfig = nil
 	return backendPath
 }
 
